@@ -12,13 +12,15 @@ def selftests(rep, seed, done):
     if 'vlib.pyvc' in sys.modules and 'pyvc' not in done:
         done.add('pyvc')
         from vlib import selftest
-        ok, nc, no, probs, dt = selftest.run()
+        try: ok, nc, no, probs, dt = selftest.run()
+        except Exception as e: ok, nc, no, probs, dt = False, 0, 0, [f'self-test crashed: {type(e).__name__}: {e}'], 0.0
         rep.extra['engine_selftest'] = dict(programs=nc, obligations=no, ok=ok, seconds=round(dt, 2), problems=probs[:5])
         if not ok: rep.errors.append('engine self-test failed (vlib/selftest.py): ' + '; '.join(probs[:3]))
     if 'vlib.symnp' in sys.modules and 'symnp' not in done:
         done.add('symnp')
         from vlib import symnp_selftest
-        ok, n, probs, dt = symnp_selftest.run(seed)
+        try: ok, n, probs, dt = symnp_selftest.run(seed)
+        except Exception as e: ok, n, probs, dt = False, 0, [f'cross-check crashed: {type(e).__name__}: {e}'], 0.0
         rep.extra['symnp_crosscheck'] = dict(comparisons=n, ok=ok, seconds=round(dt, 2), problems=probs[:5])
         if not ok: rep.errors.append('symbolic-numpy cross-check failed (vlib/symnp_selftest.py): ' + '; '.join(probs[:3]))
 
